@@ -293,6 +293,11 @@ def check(tier):
     cs = cases(tier)
     for i, cse in enumerate(cs):
         ck.add("step/S%dR%dT%d/ci%d" % cse, "harness.C05", "step_job", dict(cases=[cse]))
+    # the public entry point runs the plain stochastic loop on the caller's grid with the clock at the interface's initial time (the
+    # trajectory before the first requested time point is simulated too): C07's dispatch obligations for the plain stochastic combinations
+    from . import C07 as _C07
+    disp = [cse for cse in _C07.cases("quick") if cse[0] is True and cse[1] in (None, False) and cse[3] is False and cse[4] is True]
+    ck.add("entry-point", "harness.C07", "option_job", dict(cases=disp), fresh=True)
     ck.add("samplers", "harness.C05", "sampler_job", dict(cases=[(1,), (2,), (3,)] + ([(4,)] if tier == "thorough" else [])))
     wide = [0, 1, 5, 8, 9, 10, 11, 16, 17, 18, 19, 24, 33] if tier == "quick" else list(range(0, 41)) + [64, 65, 100, 129]
     ck.add("total-propensity-wide", "harness.C05", "sum_job", dict(cases=[(n,) for n in wide]))
